@@ -68,7 +68,7 @@ class NamePool:
         stem = "p" * 57
         self.names += [stem + "abcde", stem + "abcdf", stem + "abcdefg", ("q" * 63), ("q" * 64)]
         if longmax > 64:
-            self.names += ["r" * 65, "s" * 64 + "A", "s" * 64 + "B", "t" * 128, "u" * 129, "w" * 255, "w" * 256]
+            self.names += ["r" * 65, "s" * 64 + "A", "s" * 64 + "B", "t" * 128, "u" * 129, "w" * 255, "w" * 256, "w" * 257]
         self.longmax = longmax
 
     def pick(self, r):
@@ -332,6 +332,55 @@ def gen_history(r, name, malformed=False):
     return L
 
 
+def gen_unit_history(r, name):
+    """function-level stream for the R-vs-M correspondence: SDIputattr / NC_findattr on a bare attribute list, and
+    the raw attribute tables of one Vdata, one Vgroup, the GR file and one image (dumped before and after reopen)"""
+    L = ["history " + name]
+    pool = NamePool(r, 256)
+    used = []
+    for _ in range(r.randrange(8, 40)):
+        if used and r.random() < 0.35:
+            nm = r.choice(used)
+        else:
+            nm = pool.pick(r) if r.random() < 0.9 else r.choice(["x" * 257, "y" * 300])
+        nt = pick_nt(r) if r.random() < 0.93 else r.choice([0, 7, 26])
+        cnt = pick_count(r, NTSZ.get(nt & 255, 1))
+        L.append("unit.put %s %d %d %s" % (hx(nm), nt, cnt, hx(rdata(r, cnt * NTSZ.get(nt & 255, 1)))))
+        used.append(nm)
+        if r.random() < 0.4:
+            L.append("unit.find %s" % hx(r.choice(used + [pool.pick(r)])))
+    hp = NamePool(r, 64)
+    hp.names += ["n" * 65, "n" * 64 + "B", "m" * 100]
+    nf = r.choice([1, 2, 3])
+    L += ["h.start c", "vs.create %s %d" % (hx("vd"), nf), "vg.create %s" % hx("vg"),
+          "gr.create %s 1 21 2 2" % hx("im")]
+    usedh = {"vs": [], "vg": [], "gr": []}
+    dumps = ["vs.raw 0 0", "vg.raw 0", "gr.raw G", "gr.raw I0"]
+    for _ in range(r.randrange(10, 45)):
+        k = r.choice(["vs", "vs", "vg", "gr", "gr"])
+        u = usedh[k]
+        nm = r.choice(u) if u and r.random() < 0.4 else hp.pick(r)
+        if k == "gr" and len(nm) > 64:
+            nm = nm[:64]
+        nt = pick_nt(r) if r.random() < 0.93 else r.choice([0, 7])
+        if u and r.random() < 0.5:
+            nt = r.choice([x for x in NTS])
+        cnt = pick_count(r, NTSZ.get(nt & 255, 1), k == "gr") if r.random() < 0.95 else r.choice([0, -1])
+        data = hx(rdata(r, max(cnt, 0) * NTSZ.get(nt & 255, 1)))
+        if k == "vs":
+            L.append("vs.setattr 0 %d %s %d %d %s" % (r.choice([-1] + list(range(nf)) + ([nf, 7] if r.random() < 0.1 else [])),
+                                                      hx(nm), nt, cnt, data))
+        elif k == "vg":
+            L.append("vg.setattr 0 %s %d %d %s" % (hx(nm), nt, cnt, data))
+        else:
+            L.append("gr.setattr %s %s %d %d %s" % (r.choice(["G", "I0"]), hx(nm), nt, cnt, data))
+        u.append(nm)
+        if r.random() < 0.25:
+            L.append(r.choice(dumps))
+    L += dumps + ["h.end", "h.start w"] + dumps + ["h.end"]
+    return L
+
+
 # ----------------------------------------------------------------------------------------------------------
 def split_histories(lines):
     out, cur = [], []
@@ -513,6 +562,10 @@ def report(ctx, h, tag="rep"):
         rc2, R2, S2, flat2 = run_histories(ctx, [small], tag)
         j, kind2 = first_bad(R2, S2, flat2, 0, len(flat2))
         j = j if j is not None else 0
+    sig = signature(small, j, R2, S2, ctx)
+    if sig is not None and ctx.match_known(sig) is not None:      # the minimised failing input is a recorded finding
+        ctx.violation("known finding", "", found=True, signature=sig)
+        return False
     txt = ["# C10 replay: attribute history; library (R) vs specification (S) differ at the marked operation",
            "# run: bin/check C10 --replay <this file>"] + small + [
            "# first difference at op %d: %s" % (j, flat2[j][:200]),
@@ -520,6 +573,7 @@ def report(ctx, h, tag="rep"):
            "#   specification: %s" % (S2[j][:400])]
     ctx.violation("library differs from the attribute-list specification (%s) at: %s" % (kind2, flat2[j][:120]),
                   "\n".join(txt), found=True)
+    return True
 
 
 def run(ctx):
@@ -529,7 +583,7 @@ def run(ctx):
     for fn in sorted(os.listdir(cdir)) if os.path.isdir(cdir) else []:
         corpus += split_histories([l for l in open(os.path.join(cdir, fn)).read().splitlines()
                                    if l.strip() and not l.startswith("#")])
-    nh = 160 if ctx.tier == "quick" else 3000
+    nh = 130 if ctx.tier == "quick" else 3000
     hists = corpus + [gen_history(r, "g%d" % i) for i in range(nh)] + \
         [gen_history(r, "m%d" % i, malformed=True) for i in range(nh // 4)]
     rc, R, S, flat = run_histories(ctx, hists, "main")
@@ -566,17 +620,64 @@ def run(ctx):
                 known_hists += 1
                 continue
             if nviol < 3:
-                nviol += 1
-                report(ctx, h)
+                if report(ctx, h):
+                    nviol += 1
+                else:
+                    known_hists += 1
+    run_model_corr(ctx)
     ctx.corr("SD/GR/VS/V~AttrSpec", histories=len(hists), operations=len(flat), op_mix=opmix,
              library_fail_results=fails_r, corpus_histories=len(corpus), number_types=sorted(nts_seen),
              count_histogram=count_hist, name_length_histogram=namelen_hist,
              histories_leaving_domain=unspec_stops, histories_matching_known_findings=known_hists)
 
 
+def run_model_corr(ctx):
+    """R vs M, exact, at function level"""
+    r = ctx.rng
+    n = 50 if ctx.tier == "quick" else 1500
+    hists = [gen_unit_history(r, "u%d" % i) for i in range(n)]
+    rc, R, M, flat = run_histories(ctx, hists, "model", model=True)
+    pos, bad_n, compared, kinds = 0, 0, 0, {}
+    for h in hists:
+        lo, hi = pos, pos + len(h)
+        pos = hi
+        bad = None
+        for i in range(lo, hi):
+            if M[i] in ("nomodel", "skip", "history"):
+                continue
+            compared += 1
+            kinds[flat[i].split()[0]] = kinds.get(flat[i].split()[0], 0) + 1
+            if R[i] != M[i]:
+                bad = i
+                break
+        ctx.case(tuple(h[1:]), True)
+        if bad is not None and bad_n < 2:
+            bad_n += 1
+            # is it also a failing input of the property?  the same history against S
+            rc3, R3, S3, flat3 = run_histories(ctx, [h], "models")
+            j, kind = first_bad(R3, S3, flat3, 0, len(flat3))
+            txt = ["# C10: function-level history; library (R) vs Coq model AttrModel (M) differ",
+                   "# run: bin/check C10 --replay <this file>"] + h + [
+                   "# first R/M difference at: %s" % flat[bad][:200],
+                   "#   library: %s" % ((R[bad] or "crash")[:400]),
+                   "#   model  : %s" % M[bad][:400]]
+            if j is not None:
+                txt += ["# the library also leaves the specification at: %s" % flat3[j][:200],
+                        "#   library      : %s" % ((R3[j] or "crash")[:300]), "#   specification: %s" % S3[j][:300]]
+            ctx.violation("model correspondence (SDIputattr / attribute tables) broken at: %s" % flat[bad][:120],
+                          "\n".join(txt), found=j is not None)
+    ctx.corr("SDIputattr,NC_findattr,VSsetattr,Vsetattr,GRsetattr~AttrModel", histories=len(hists), operations=len(flat),
+             compared_lines=compared, by_operation=kinds, mismatching_histories=bad_n)
+
+
 def replay(ctx, path):
     lines = [l for l in open(path).read().splitlines() if l.strip() and not l.startswith("#")]
     rc, R, S, flat = run_histories(ctx, [lines], "replay")
+    if any(l.startswith("unit.") or ".raw" in l for l in lines):
+        rcm, Rm, M, _ = run_histories(ctx, [lines], "replaym", model=True)
+        for i, l in enumerate(flat):
+            ok = M[i] in ("nomodel", "skip", "history") or Rm[i] == M[i]
+            print("%s %-50s R: %-60s M: %s" % ("  " if ok else "!!", l[:50], (Rm[i] or "<crash>")[:60], M[i][:80]))
     stop = False
     for i, l in enumerate(flat):
         ok = stop or match(R[i], S[i])
